@@ -126,7 +126,11 @@ func (evt *throwEvent) NextAction(ctx context.Context, flow Flow) chan IAction {
 	})
 
 	response := make(chan IAction, 1)
-	evt.mch <- nextActionMessage{response: response, flow: flow}
+	// the node's goroutine stops reading its inbox when the context is done
+	select {
+	case evt.mch <- nextActionMessage{response: response, flow: flow}:
+	case <-ctx.Done():
+	}
 	return response
 }
 
